@@ -31,7 +31,19 @@ func globalCurveCallers(c *ctx, rule string) {
 			top := core.Outermost(fn)
 			name := core.RelPkg(top) + "." + core.FuncName(top)
 			callers = append(callers, name)
-			if _, ok := allowed[name]; !ok {
+			_, ok := allowed[name]
+			if !ok && core.PrivateHelper(top) {
+				// the decoders' curve lookup factored into a private helper that nothing else calls
+				sites := core.ClosureCallSites(top)
+				ok = len(sites) > 0
+				for _, s := range sites {
+					ct := core.Outermost(s.Parent())
+					if _, isOK := allowed[core.RelPkg(ct)+"."+core.FuncName(ct)]; !isOK {
+						ok = false
+					}
+				}
+			}
+			if !ok {
 				bad += name + " at " + c.pos(cs) + "; "
 			}
 		}
